@@ -30,6 +30,13 @@ reached on an instance that a front end keeps alive and evaluates between the us
   levels) by A / !A / A && B / a member of another choice, for plain, defaulted, named, twice-defined, nested and paired
   choices and members with their own conditions -- evaluate while hidden, show, evaluate, pick, evaluate.
 
+Family twice_dfl (wave 5): a NAMED choice defined at two places whose `default` lines -- in the first, the second or
+both definitions -- carry conditions on symbols that nothing else in the choice mentions (no member's visibility, no
+prompt), so that the default line itself is the only thing tying the selection to the symbol.  Dimensions: members
+1|23, 12|3, 123|none; second definition promptless / with a prompt of its own; 5 (thorough 9) splits of conditional
+defaults over the two definitions; thorough also a member with its own condition.  Searched fresh and live like every
+family (alphabet of the live search: set(F|G, y|n) with evaluations in between is what bites).
+
 Two further small families:
 
 * member_select / member_imply -- an option OUTSIDE the choice has `select M2` / `imply M2` on a member (plain, with a
@@ -64,7 +71,10 @@ RULE = (
     "promptless member; 'hidden': every way of hiding a choice {choice depends on, prompt if, enclosing if, menu depends on, "
     "menu visible if, if inside menu, menu inside if, two levels} x condition {A, !A; thorough also A&&B, A||B; a member of "
     "another choice} x shape {plain, conditional defaults, named, members with own condition, named twice (both / first "
-    "definition hidden), nested (outer / inner hidden), pair of choices behind one switch}) over set/reset/load/merge "
+    "definition hidden), nested (outer / inner hidden), pair of choices behind one switch}; 'twice_dfl': named choice defined "
+    "twice x members {1|23, 12|3, 123|none} x second definition {promptless, prompted} x conditional defaults split over the two "
+    "definitions (5, thorough 9 splits; conditions F, !F, G, thorough F&&G, F||G, on symbols nothing else in the choice mentions) "
+    "x thorough a member with its own condition) over set/reset/load/merge "
     "operations; states merged on (user values, user selections). Every state is evaluated on a fresh instance; the first "
     "history reaching it also on one live instance evaluated at each single point / all points (thorough: every non-empty "
     "subset) of {initially, after op 1..n-1}, per READS kind {values, full; thorough + shown, choices, outputs}. A second BFS "
@@ -94,6 +104,8 @@ ASSUMPTIONS = [
     "(str_value / visibility / assignable / Choice.selection) or running the real output writers",
     "a named choice defined twice is only generated with all definitions hidden alike or with the single prompted one hidden "
     "(what per-definition `depends on` means for the members of the other definition is not documented)",
+    "twice_dfl: the definitions of a named choice add up -- members and `default` lines in definition order, visible if any "
+    "definition's prompt is (both prompts are unconditional there, so the choice is always visible)",
 ]
 
 
@@ -186,6 +198,49 @@ def hidden_programs(tier: str) -> Iterator[Tuple[str, Program]]:
         ch = Choice(prompt="c", defaults=[("M2", None)], children=[M(1), M(2)])
         node = hide(k1, S("A"), hide(k2, S("B"), ch))
         yield ("hidden_two_levels", Program(children=[A("A"), A("B"), node]))
+
+
+TWICE_DFL = True  # wave-5 family twice_dfl; False gives exactly the previous program list
+
+
+def twice_programs(tier: str) -> Iterator[Tuple[str, Program]]:
+    """a NAMED choice defined at two places, with `default` lines in either definition whose conditions mention symbols
+    that nothing else in the choice mentions (F, G: no member's visibility, no prompt depends on them) -- so that the ONLY
+    thing tying the selection to F / G is the default line itself, wherever it was written.  Dimensions: where the members
+    are (1|23, 12|3, 123|none), whether the second definition has a prompt of its own, which definition carries which
+    defaults; thorough also a member with its own condition (H) and the negated / conjunctive conditions.  No definition
+    has a `depends on` (see ASSUMPTIONS), so the reference is: visibility = OR of the prompts, defaults in definition order."""
+    F, G = S("F"), S("G")
+    places = (((1,), (2, 3)), ((1, 2), (3,)), ((1, 2, 3), ()))
+    # (defaults of the first definition, defaults of the second definition)
+    dfls = [
+        ([], [("M3", F)]),
+        ([], [("M2", Not(F))]),
+        ([("M2", G)], [("M3", F)]),
+        ([("M3", F)], [("M2", G)]),
+        ([("M1", G)], [("M3", F), ("M2", None)]),
+    ]
+    if tier != "quick":
+        dfls += [
+            ([], [("M3", And(F, G))]),
+            ([], [("M3", Or(F, G)), ("M2", Not(G))]),
+            ([("M3", Not(F))], []),
+            ([], [("M2", F), ("M3", F)]),
+        ]
+    mconds = (None,) if tier == "quick" else (None, 3)
+    for (first, second), p2, (d1, d2), mc in itertools.product(places, (None, "c2"), dfls, mconds):
+        if tier == "quick" and p2 is not None and not second:
+            continue  # quick: a memberless second definition only without a prompt (the `default`-only extension)
+
+        def mem(i):
+            return M(i, prompt_cond=S("H")) if mc == i else M(i)
+
+        used = sorted({n for _, c in d1 + d2 if c is not None for n in kgen.expr_syms(c)} | ({"H"} if mc else set()))
+        yield ("twice_dfl", Program(children=[A(n) for n in used] + [
+            Choice(name="CH", prompt="c", defaults=list(d1), children=[mem(i) for i in first]),
+            Cfg("MID", "bool"),
+            Choice(name="CH", prompt=p2, defaults=list(d2), children=[mem(i) for i in second]),
+        ]))
 
 
 def selected_member_programs(tier: str) -> Iterator[Tuple[str, Program]]:
@@ -336,6 +391,9 @@ def programs(tier: str) -> Iterator[Tuple[str, Program]]:
         menu = Menu(title="m", children=[Choice(prompt="c", children=[Cfg("M1", "bool", prompt="m1"), Cfg("M2", "bool", prompt="m2")])])
         (menu.depends if w == "depends" else menu.visible_if).append(S("A"))
         yield ("in_menu_" + w, Program(children=[A("A"), menu]))
+    # named choice defined twice, defaults in either definition on conditions nothing else mentions
+    if TWICE_DFL:
+        yield from twice_programs(tier)
     # choices hidden from outside, in every way
     yield from hidden_programs(tier)
     # a member that an option outside the choice selects / implies
@@ -706,7 +764,8 @@ def explore_item(item, r: common.Result, only_history=None, only_reads=None):
 
     if phase == "fresh":
         # the hidden families are about showing / hiding; the load-file orders are exercised by the other families
-        ops = op_menu(model, live=fam.startswith("hidden_"))
+        # ... and so is twice_dfl (about which definition a default was written in)
+        ops = op_menu(model, live=fam.startswith("hidden_") or fam == "twice_dfl")
 
         # the key (all user values + all user selections) determines every value the oracle reads on a FRESH instance (no
         # default-marked loads in this alphabet, hence no injected defaults), so revisited states need not be re-checked
